@@ -606,8 +606,51 @@ def gen_jobfile(rng):
     return {"family": "job", "cls": "JobInstance", "pipe": rng.choice(["router-file", "dumps-loads"]), "spec": gen_job(rng, prof)}
 
 
+LAST_JOB_BYTES = [None]     # what the real writer wrote for the last job case (for the Model/Json comparison)
+
+
+def job_model_input(job):
+    """The job instance as the Lean model takes it (Drive/C17.lean, op "job"): read off the ATTRIBUTES of the
+    real objects (not their dump), pairs sorted by key."""
+    def pairs(d):
+        return [[k, d[k]] for k in sorted(d)]
+    tasks = []
+    for name in sorted(job.tasks):
+        t = job.tasks[name]
+        d = t.definition
+        tasks.append([name, {"def": {"entrypoint": d.entrypoint, "func": d.func, "environment": list(d.environment),
+                                     "input_schema": pairs(d.input_schema), "output_schema": pairs(d.output_schema),
+                                     "needs_gpu": d.needs_gpu},
+                             "kw": t.static_input_kw, "ps": t.static_input_ps}])
+    edges = [{"source": [e.source.task, e.source.output], "sink_task": e.sink_task, "kw": e.sink_input_kw, "ps": e.sink_input_ps}
+             for e in job.edges]
+    return {"tasks": tasks, "edges": edges, "serdes": [[k, job.serdes[k][0], job.serdes[k][1]] for k in sorted(job.serdes)],
+            "ext": [[d.task, d.output] for d in job.ext_outputs]}
+
+
+def json_same(a, b):
+    """equality of parsed JSON, numbers by value (the Lean side prints 1e22 as an integer literal)"""
+    if isinstance(a, bool) or isinstance(b, bool) or a is None or b is None:
+        return type(a) is type(b) and a == b
+    if isinstance(a, (int, float)) and isinstance(b, (int, float)):
+        if isinstance(a, float) or isinstance(b, float):
+            try:
+                return float(a) == float(b)
+            except OverflowError:
+                return False
+        return a == b
+    if type(a) is not type(b):
+        return False
+    if isinstance(a, dict):
+        return a.keys() == b.keys() and all(json_same(a[k], b[k]) for k in a)
+    if isinstance(a, list):
+        return len(a) == len(b) and all(json_same(x, y) for x, y in zip(a, b))
+    return a == b
+
+
 def run_jobfile(case):
     import orjson
+    LAST_JOB_BYTES[0] = None
 
     from cascade.low.core import JobInstance
     job = build(case["spec"])
@@ -616,6 +659,7 @@ def run_jobfile(case):
             b = orjson.dumps(job.dict())
         except Exception as e:
             return "rejected", _err(e)
+        LAST_JOB_BYTES[0] = b
         try:
             back = JobInstance(**orjson.loads(b))
         except Exception as e:
@@ -659,6 +703,7 @@ def run_jobfile(case):
                 return "rejected", _err(e)
             if list(files) != ["/tmp/c17job.json"]:
                 return "mismatch", f"files written: {sorted(files)}"
+            LAST_JOB_BYTES[0] = files["/tmp/c17job.json"]
             try:
                 back = bm.get_job(None, "/tmp/c17job.json")
             except Exception as e:
@@ -673,29 +718,28 @@ def run_jobfile(case):
     return ("ok", "") if same(back, job) else ("mismatch", _first_diff(job.model_dump(), back.model_dump()))
 
 
-def _first_diff(a, b, path="$"):
-    if type(a) is not type(b):
-        return f"{path}: {a!r:.60} ({type(a).__name__}) became {b!r:.60} ({type(b).__name__})"
-    if isinstance(a, dict):
+def _first_diff(a, b, path="$", eq=None):
+    eq = eq or same
+    if isinstance(a, dict) and isinstance(b, dict):
         for k in a:
             if k not in b:
                 return f"{path}.{k}: lost"
-            d = _first_diff(a[k], b[k], f"{path}.{k}")
+            d = _first_diff(a[k], b[k], f"{path}.{k}", eq)
             if d:
                 return d
         for k in b:
             if k not in a:
                 return f"{path}.{k}: appeared"
         return ""
-    if isinstance(a, (list, tuple)):
+    if isinstance(a, (list, tuple)) and type(a) is type(b):
         if len(a) != len(b):
             return f"{path}: length {len(a)} became {len(b)}"
         for i, (x, y) in enumerate(zip(a, b)):
-            d = _first_diff(x, y, f"{path}[{i}]")
+            d = _first_diff(x, y, f"{path}[{i}]", eq)
             if d:
                 return d
         return ""
-    return "" if same(a, b) else f"{path}: {a!r:.60} became {b!r:.60}"
+    return "" if eq(a, b) else f"{path}: {a!r:.60} ({type(a).__name__}) became {b!r:.60} ({type(b).__name__})"
 
 
 # --------------------------------------------------------------------------- dispatch + oracle
